@@ -651,6 +651,13 @@ func sortedCounts(m map[string]int) string {
 	sort.Strings(ks)
 	var sb strings.Builder
 	for _, k := range ks {
+		if strings.HasPrefix(k, "measured: ") {
+			// measurements (not choices or verdicts) stay out of the event log
+			// that the determinism self-test compares: the library's own map
+			// iteration makes the amount of work of a walk vary by a fraction
+			// of a percent between processes
+			continue
+		}
 		fmt.Fprintf(&sb, "%s=%d;", k, m[k])
 	}
 	return sb.String()
